@@ -180,11 +180,13 @@ def gen_choices(rng: random.Random, custom: bool, hostile_defaults: bool) -> lis
             value = rng.choice(('0.5', '-2.5', '1.0'))
         elif r < 0.7:
             value = ''
-        elif hostile_defaults and custom and r < 0.75:
+        elif r < 0.73:
+            # strings that float() accepts but that are not plain decimals: they must be written quoted
+            value = rng.choice(('+0', ' 255 ', '1e3', '1_0', 'nan', '.5', '5.', 'inf', '-', '0x10'))
+        elif hostile_defaults and custom and r < 0.77:
             value = rng.choice(('a\\b', 'q"q', 'models\\x.mdl'))
         else:
-            # no blank padding: the writer leaves anything float() accepts unquoted, and float(' 255 ') is accepted
-            value = rng.choice((ident(rng), pathlike(rng), short_text(rng, False, 12, escapes=False).strip()))
+            value = rng.choice((ident(rng), pathlike(rng), short_text(rng, False, 12, escapes=False)))
         # choice names are always written with the classic escaping: no newline, quote or backslash
         name = any_text(rng, False, p_empty=0.08, p_long=0.02, newlines=False, escapes=False).replace('\n', ' ')
         out.append((value, name, gen_tags(rng) if rng.random() < 0.3 else frozenset()))
